@@ -5,6 +5,7 @@
 -/
 import OHVerif.Model.Functor
 import OHVerif.Lemmas.Segs
+import OHVerif.Props.C06
 
 namespace OH.C13
 open OH
@@ -221,6 +222,137 @@ theorem witness_segments (F : LFunctor O1 A1 O2 A2) (d : LOHG O1 A1) (r : LOHG O
   have := splitSegs_map_length_flatten ((d.hypergraph.nodes.map F.mapObject).map (List.map some))
   simp only [List.map_map, Function.comp_def, List.length_map] at this
   simpa [List.map_flatten, Function.comp_def] using this
+
+/-! ### the native path never panics on its own
+
+  Every failure inside `spider_map_arrow` (dangling node ids, an operation image whose arity does
+  not match the expanded type of the operation — the unchecked consistency condition of the
+  `Functor` trait) surfaces as `None`; a panic can only come from the user's `map_operation` or
+  from an out-of-range index while collecting the operation types of an ill-formed input. -/
+
+def NoPanic {α : Type} (r : Res α) : Prop := ∀ s, r ≠ .panic s
+
+theorem NoPanic.bind {α β : Type} {x : Res α} {f : α → Res β} (hx : NoPanic x)
+    (hf : ∀ a, x = .ok a → NoPanic (f a)) : NoPanic (x >>= f) := by
+  cases x with
+  | ok a => exact hf a rfl
+  | none => intro s h; cases h
+  | panic s => exact absurd rfl (hx s)
+
+theorem noPanic_ok {α : Type} (a : α) : NoPanic (Res.ok a) := by intro s h; cases h
+theorem noPanic_none {α : Type} : NoPanic (Res.none : Res α) := by intro s h; cases h
+
+theorem finfun_new_noPanic (t : List Nat) (n : Nat) : NoPanic (FinFun.new t n) := by
+  rcases IC.finfun_new_cases t n with h | h <;> rw [h]
+  · exact noPanic_none
+  · exact noPanic_ok _
+
+theorem mapHalfSpiderL_noPanic (fw : List (List O2)) (ids : List Nat) :
+    NoPanic (LFunctor.mapHalfSpiderL fw ids) := by
+  unfold LFunctor.mapHalfSpiderL
+  refine (finfun_new_noPanic _ _).bind (fun sizes hs => ?_)
+  refine (finfun_new_noPanic _ _).bind (fun f hf => ?_)
+  rcases IC.finfun_new_cases (fw.map List.length) (Prim.sum (fw.map List.length) + 1) with h | h
+  · rw [h] at hs; cases hs
+  rcases IC.finfun_new_cases ids fw.length with h' | h'
+  · rw [h'] at hf; cases hf
+  rw [h] at hs; rw [h'] at hf
+  injection hs with hs; injection hf with hf
+  subst hs; subst hf
+  have hwf : (⟨ids, fw.length⟩ : FinFun).WF := ((C06.new_accepts_iff ids fw.length).1).1 h'
+  rw [FinFun.injections_ok _ _ hwf (by simp [FinFun.source])]
+  exact noPanic_ok _
+
+theorem spiderMapArrowL_noPanic (f : LOHG O1 A1) (fw : List (List O2)) (fx : LOHG O2 A2) :
+    NoPanic (LFunctor.spiderMapArrowL f fw fx) := by
+  unfold LFunctor.spiderMapArrowL
+  refine (mapHalfSpiderL_noPanic _ _).bind (fun fs _ => ?_)
+  refine (mapHalfSpiderL_noPanic _ _).bind (fun ft _ => ?_)
+  refine (mapHalfSpiderL_noPanic _ _).bind (fun es _ => ?_)
+  refine (mapHalfSpiderL_noPanic _ _).bind (fun et _ => ?_)
+  rw [FinFun.identity_eq]
+  simp only [Res.ok_bind]
+  have hco : ∀ a b : FinFun, NoPanic (FinFun.coproduct a b) := by
+    intro a b; unfold FinFun.coproduct; split
+    · exact noPanic_ok _
+    · exact noPanic_none
+  have hsp : ∀ (a b : FinFun) (w : List O2), NoPanic (LOHG.spider a b w : Res (LOHG O2 A2)) := by
+    intro a b w; unfold LOHG.spider; split
+    · exact noPanic_none
+    · exact noPanic_ok _
+  have hlc : ∀ a b : LOHG O2 A2, NoPanic (LOHG.laxCompose a b) := by
+    intro a b; unfold LOHG.laxCompose; split
+    · exact noPanic_none
+    · exact noPanic_ok _
+  refine (hco _ _).bind (fun sxT _ => ?_)
+  refine (hsp _ _ _).bind (fun sx _ => ?_)
+  refine (hco _ _).bind (fun ytS _ => ?_)
+  refine (hsp _ _ _).bind (fun yt _ => ?_)
+  exact (hlc _ _).bind (fun a _ => hlc _ _)
+
+/-- once the tensor of operation images has been formed, neither `try_define_map_arrow` nor
+    `map_arrow_witness` can panic: they return the image or `None` -/
+theorem native_noPanic (F : LFunctor O1 A1 O2 A2) (d : LOHG O1 A1)
+    (hops : NoPanic (LFunctor.mapOperationsL F d)) :
+    NoPanic (LFunctor.tryMapArrow F d) ∧ NoPanic (LFunctor.mapArrowWitness F d) := by
+  have h1 : NoPanic (LFunctor.tryMapArrow F d) := by
+    unfold LFunctor.tryMapArrow
+    split
+    · exact noPanic_none
+    · exact hops.bind (fun fx _ => spiderMapArrowL_noPanic _ _ _)
+  refine ⟨h1, ?_⟩
+  rw [mapArrowWitness_eq]
+  exact h1.bind (fun r _ => noPanic_ok _)
+
+theorem foldlM_noPanic {α β : Type} (l : List β) (step : α → β → Res α) (init : α)
+    (h : ∀ acc, ∀ p ∈ l, NoPanic (step acc p)) : NoPanic (l.foldlM step init) := by
+  induction l generalizing init with
+  | nil => exact noPanic_ok _
+  | cons p l ih =>
+    rw [List.foldlM_cons]
+    exact (h init p (by simp)).bind (fun a _ => ih a (fun acc q hq => h acc q (by simp [hq])))
+
+theorem mapM_noPanic {γ δ : Type} (l : List γ) (f : γ → Res δ) (h : ∀ x ∈ l, NoPanic (f x)) :
+    NoPanic (l.mapM f) := by
+  induction l with
+  | nil => exact noPanic_ok _
+  | cons a l ih =>
+    rw [List.mapM_cons]
+    exact (h a (by simp)).bind (fun b _ =>
+      (ih (fun x hx => h x (by simp [hx]))).bind (fun bs _ => noPanic_ok _))
+
+theorem get_noPanic {α : Type} (xs : List α) (i : Nat) (h : i < xs.length) : NoPanic (Prim.get xs i) := by
+  rw [Prim.get_ok xs i h]; exact noPanic_ok _
+
+/-- on a well-formed input, collecting the operation types cannot panic: the only possible source
+    of a panic in the whole native path is the user's `map_operation` -/
+theorem mapOperationsL_noPanic (F : LFunctor O1 A1 O2 A2) (d : LOHG O1 A1) (hd : d.wf = true)
+    (hF : ∀ a s t, NoPanic (F.mapOperation a s t)) : NoPanic (LFunctor.mapOperationsL F d) := by
+  simp only [LOHG.wf, LHG.wf, Bool.and_eq_true, beq_iff_eq, List.all_eq_true, decide_eq_true_eq] at hd
+  obtain ⟨⟨⟨⟨⟨⟨hlen, hadj⟩, _⟩, _⟩, _⟩, _⟩, _⟩ := hd
+  unfold LFunctor.mapOperationsL
+  apply foldlM_noPanic
+  intro acc p hp
+  have hp2 : p.2 < d.hypergraph.adjacency.length := by
+    have := (List.of_mem_zip hp).2
+    rw [List.mem_range] at this
+    omega
+  rw [Prim.get_ok _ _ hp2]
+  simp only [Res.ok_bind]
+  have he := hadj _ (List.getElem_mem hp2)
+  refine (mapM_noPanic _ _ (fun i hi => get_noPanic _ _ (he.1 i hi))).bind (fun src _ => ?_)
+  refine (mapM_noPanic _ _ (fun i hi => get_noPanic _ _ (he.2 i hi))).bind (fun tgt _ => ?_)
+  exact (hF _ _ _).bind (fun img _ => noPanic_ok _)
+
+theorem native_noPanic_of_wf (F : LFunctor O1 A1 O2 A2) (d : LOHG O1 A1) (hd : d.wf = true)
+    (hF : ∀ a s t, NoPanic (F.mapOperation a s t)) :
+    NoPanic (LFunctor.tryMapArrow F d) ∧ NoPanic (LFunctor.mapArrowWitness F d) :=
+  native_noPanic F d (mapOperationsL_noPanic F d hd hF)
+
+/-- an operation image of the wrong arity is answered with `None`, not with a panic (the trait
+    documentation says "may panic") -/
+example : LFunctor.tryMapArrow (⟨fun o => [o], fun a _ _ => .ok (LOHG.singleton a [] [])⟩ :
+    LFunctor Nat Nat Nat Nat) (LOHG.singleton 9 [1] [2]) = .none := by decide
 
 /-! ### a concrete run -/
 
